@@ -54,12 +54,14 @@ Proof.
     by (intros; unfold via; rewrite map_map; reflexivity).
   assert (Hstep : node_step (OPermute dims) bs nm =
             if is_identity (map Z.of_nat p) then Done SSelf
-            else Done (SStep (map (nthZ bs) p ++ []) (Some (map (fun i => nth i (names_list nm (List.length bs)) None) p))
+            else Done (SStep (map (nthZ bs) p) (Some (map (fun i => nth i (names_list nm (List.length bs)) None) p))
                              (fun csh => OPermute (map Z.of_nat p ++ rangeZ (List.length p) (List.length csh))))).
   { rewrite (node_permute_raw _ _ _ _ Hm). cbn [node_step]. rewrite map_norm_nat.
     rewrite existsb_range_false by (rewrite <- Hl; exact Hf).
     rewrite map_to_nat_of_nat, forallb_lt_len, Hn by exact Hf. cbn [andb negb]. rewrite Hh, map_length, Hl, skipn_all.
-    reflexivity. }
+    change fixed_C02k with true. cbv iota.
+    rewrite (skipn_all2 (names_list nm (List.length bs))) by (rewrite names_list_length by exact Hw; lia).
+    rewrite !app_nil_r. reflexivity. }
   destruct (is_identity (map Z.of_nat p)) eqn:E.
   - cbn [apply] in Ha. rewrite Hstep in Ha. cbn [bindo] in Ha. injection Ha as <-. cbn [root_names top_shape].
     destruct nm as [l|]; [|discriminate]. cbn [names_list] in *. cbn in Hw. exists l. split; [reflexivity|].
@@ -68,7 +70,7 @@ Proof.
     + intros k j Hk. rewrite E, Hl, nth_error_map in Hk.
       destruct (nth_error (seq 0 (List.length bs)) k) as [j'|] eqn:E2; [|discriminate]. injection Hk as <-.
       apply nth_error_seq0 in E2. subst. reflexivity.
-  - destruct (apply_root bs nm ents (OPermute dims) _ _ _ t' ltac:(intros; discriminate) Hstep Ha) as [Ht Hr]. rewrite app_nil_r in Ht.
+  - destruct (apply_root bs nm ents (OPermute dims) _ _ _ t' ltac:(intros; discriminate) Hstep Ha) as [Ht Hr].
     eexists. split; [exact Hr|]. rewrite Ht. split; [rewrite !map_length; reflexivity|]. split; [rewrite Hvia; reflexivity|].
     intros k j Hk. rewrite nth_error_map in Hk. destruct (nth_error p k) as [j'|] eqn:E2; [|discriminate]. injection Hk as <-.
     unfold nthZ at 1. rewrite (nth_indep _ 0 (nthZ bs 0%nat)) by (rewrite map_length; apply nth_error_Some; congruence).
@@ -170,7 +172,11 @@ Theorem names_expand bs nm ents shape t' :
 Proof.
   intros Hn He Hw Hh Ha. destruct (node_expand_ok bs shape nm (conj Hn He)) as [nm' [Hs _]].
   assert (Hnm : nm' = Some (repeat None (List.length shape - List.length bs) ++ names_list nm (List.length bs))).
-  { cbn [node_step] in Hs. destruct (List.length shape <? List.length bs)%nat; [discriminate|].
+  { pose proof He as He'. apply t_expand_inv in He'. destruct He' as [Hl _].
+    cbn [node_step] in Hs. destruct (List.length shape <? List.length bs)%nat; [discriminate|].
+    change fixed_C02f with true in Hs. cbv iota in Hs.
+    rewrite resolve_id in Hs by (apply nonneg_skipn; exact Hn).
+    rewrite map_snd_combine in Hs by (rewrite skipn_length; lia). rewrite firstn_skipn in Hs.
     destruct (existsb _ _); [discriminate|]. rewrite Hh in Hs. injection Hs as <-. reflexivity. }
   subst nm'. destruct (apply_root bs nm ents (OExpand shape) _ _ _ t' ltac:(intros; discriminate) Hs Ha) as [Ht Hr].
   split; assumption.
@@ -201,7 +207,10 @@ Proof.
   { cbn [node_step].
     replace (if a <? 0 then Z.of_nat (List.length bs) + a else a) with (Z.of_nat i) by (destruct (a <? 0); lia).
     replace (if b <? 0 then Z.of_nat (List.length bs) + b else b) with (Z.of_nat j) by (destruct (b <? 0); lia).
-    destruct (Z.of_nat j <? 0) eqn:E2; [lia|]. rewrite andb_false_r. cbn [andb].
+    destruct (Z.of_nat i <? 0) eqn:E1; [lia|]. destruct (Z.of_nat j <? 0) eqn:E2; [lia|].
+    destruct (Z.of_nat (List.length bs) <=? Z.of_nat i) eqn:E01; [lia|].
+    destruct (Z.of_nat (List.length bs) <=? Z.of_nat j) eqn:E02; [lia|].
+    cbn [andb orb]. rewrite ?andb_false_r. cbn [andb].
     destruct (Z.of_nat j <=? Z.of_nat i) eqn:E3; [lia|].
     replace (Z.of_nat j + 1) with (Z.of_nat (S j)) by lia.
     rewrite py_slice_in, py_from_in, py_upto_in by lia.
